@@ -30,7 +30,43 @@ Inductive init_out := InitOk | InitRaise (ty : bytes) | InitPanic | InitNil.
 
 (* ---- faults injected by the proxy, one per POST -------------------------- *)
 Inductive net := NetOk | NetBefore | NetAfter.
-Inductive encf := EncKeep | EncUnknown | EncBad.
+(* What the response says about its content coding, on the two headers the client
+   reads: the standard Content-Encoding and the custom X-VGI-Content-Encoding.
+   CAbsent: header not present; COk: names a supported coding the body really is in
+   (or identity); CUnknown: names (or lists) an unsupported coding; CBad: names gzip
+   but the body is not gzip.
+     EncKeep               nothing wrong (absent / consistent, on either header)
+     EncUnknown            standard: unsupported, custom: absent
+     EncBad                standard: gzip but body is not, custom: absent
+     EncCustomUnknown      standard: absent, custom: unsupported
+     EncBothUnknown        both unsupported
+     EncStdUnknownCustomOk standard: unsupported, custom: fine
+     EncStdOkCustomUnknown standard: fine, custom: unsupported (the standard header
+                           is authoritative; the custom one is not consulted)
+     EncCustomBad          standard: absent, custom: gzip but body is not *)
+Inductive encf := EncKeep | EncUnknown | EncBad | EncCustomUnknown | EncBothUnknown
+                | EncStdUnknownCustomOk | EncStdOkCustomUnknown | EncCustomBad.
+Inductive coding := CAbsent | COk | CUnknown | CBad.
+Definition enc_std (e : encf) : coding :=
+  match e with
+  | EncKeep | EncCustomUnknown | EncCustomBad => CAbsent
+  | EncUnknown | EncBothUnknown | EncStdUnknownCustomOk => CUnknown
+  | EncBad => CBad
+  | EncStdOkCustomUnknown => COk
+  end.
+Definition enc_custom (e : encf) : coding :=
+  match e with
+  | EncKeep | EncUnknown | EncBad => CAbsent
+  | EncCustomUnknown | EncBothUnknown | EncStdOkCustomUnknown => CUnknown
+  | EncStdUnknownCustomOk => COk
+  | EncCustomBad => CBad
+  end.
+(* HttpClient.post: the standard header if present, else the custom one, is validated
+   (unsupported => refused) and then decoded (undecodable => refused) *)
+Definition enc_chosen (e : encf) : coding :=
+  match enc_std e with CAbsent => enc_custom e | c => c end.
+Definition enc_accepts (e : encf) : bool :=
+  match enc_chosen e with CAbsent | COk => true | CUnknown | CBad => false end.
 (* BTrunc: cut inside a message (a declared length now exceeds what is left);
    BTruncHead: cut so that only 1..3 bytes of the last message remain (nothing
    oversized is declared); BTrailing: a tail the framing guard accepts (shorter
@@ -166,13 +202,11 @@ Definition post_view (f : fault) (sr : sresp) : err + (bool * cbody) :=
   match f_net f with
   | NetOk =>
       if f_over f then inl (ERpc transport_error) else
-      match f_enc f with
-      | EncKeep =>
+      if enc_accepts (f_enc f) then
           if status_2xx (eff_status f)
           then inr (sr_errhdr sr || f_errhdr f, edit (f_body f) sr)
           else inl (EStatus (eff_status f))
-      | _ => inl (ERpc transport_error)
-      end
+      else inl (ERpc transport_error)
   | _ => inl (ERpc transport_error)
   end.
 
@@ -440,7 +474,12 @@ Definition result_eqb (a b : result) : bool :=
 Definition net_eqb (a b : net) : bool :=
   match a, b with NetOk, NetOk | NetBefore, NetBefore | NetAfter, NetAfter => true | _, _ => false end.
 Definition encf_eqb (a b : encf) : bool :=
-  match a, b with EncKeep, EncKeep | EncUnknown, EncUnknown | EncBad, EncBad => true | _, _ => false end.
+  match a, b with
+  | EncKeep, EncKeep | EncUnknown, EncUnknown | EncBad, EncBad | EncCustomUnknown, EncCustomUnknown
+  | EncBothUnknown, EncBothUnknown | EncStdUnknownCustomOk, EncStdUnknownCustomOk
+  | EncStdOkCustomUnknown, EncStdOkCustomUnknown | EncCustomBad, EncCustomBad => true
+  | _, _ => false
+  end.
 Definition bodyf_eqb (a b : bodyf) : bool :=
   match a, b with
   | BKeep, BKeep | BGarbage, BGarbage | BEmpty, BEmpty | BTrunc, BTrunc | BTrailing, BTrailing
@@ -464,7 +503,7 @@ Definition sobs_eqb (a b : sobs) : bool := list_eqb op_eqb a b.
 (* ================= the property, decided on one observation ================== *)
 (* A response reaches the client's parser unchanged *)
 Definition transparent (f : fault) : bool :=
-  net_eqb (f_net f) NetOk && negb (f_over f) && encf_eqb (f_enc f) EncKeep
+  net_eqb (f_net f) NetOk && negb (f_over f) && enc_accepts (f_enc f)
   && bodyf_eqb (f_body f) BKeep && negb (f_errhdr f) && status_2xx (eff_status f).
 (* faults that remove the continuation marker from an otherwise valid body: the
    protocol has no end-of-stream marker, so the client cannot tell *)
@@ -602,8 +641,13 @@ Definition open_ok (i : sinput) (r : op_rec) : bool :=
 (* a response that does not match its declaration (transport failure, non-2xx, size,
    encoding, malformed / truncated / trailing bytes, schema drift, error header) is
    never accepted; on an exchange stream neither is one that lost its cursor *)
+(* the response gets as far as the IPC parser: delivered, within the size caps, with an
+   acceptable content coding on the header the client reads, and a 2xx status *)
+Definition reaches_parser (f : fault) : bool :=
+  net_eqb (f_net f) NetOk && negb (f_over f) && enc_accepts (f_enc f) && status_2xx (eff_status f).
 Definition rej_post (ex : bool) (res : result) (p : post_rec) : bool :=
-  is_err res || transparent (p_fault p) || (lossy (p_fault p) && (negb ex || p_cancel p)).
+  is_err res || transparent (p_fault p)
+  || (lossy (p_fault p) && reaches_parser (p_fault p) && (negb ex || p_cancel p)).
 Definition rej_one (ex : bool) (r : op_rec) : bool := forallb (rej_post ex (o_res r)) (o_posts r).
 Definition reject_ok (i : sinput) (o : sobs) : bool := forallb (rej_one (i_exchange i)) o.
 
